@@ -223,6 +223,7 @@ func main() {
 		{name: "two-uploaders", uploads: [][]string{{"A3", "B5"}, {"D4"}}, spare: 1},
 		{name: "rotation", uploads: [][]string{{"C8", "F8", "G8", "H8"}}, spare: 1},
 		{name: "rotation-two-uploaders", uploads: [][]string{{"C8", "F8"}, {"G8", "H8"}}, spare: 1},
+		{name: "rotation-twice", uploads: [][]string{{"C8", "F8", "G8", "H8", "I8"}}, spare: 2}, // a second release while the state write for the first is in flight
 		{name: "rotation-nospare", uploads: [][]string{{"C8", "F8", "G8", "H8", "I8"}}, spare: 0},
 		{name: "sync-failures", uploads: [][]string{{"A3", "C8"}}, spare: 1, syncFaults: 2},
 		{name: "state-failures", uploads: [][]string{{"A3", "C8"}}, spare: 1, dirFaults: 2},
